@@ -238,8 +238,13 @@ def optRV : Option RV → String
   | some v => renderRV v
   | none => "no-such-field"
 
-def rgetModel (i : In) (op : List String) : String :=
-  let x := i.ext
+/-- Reading of a rules case.  `fv struct kvs yaml` gives the value of a v2 field from the v1
+(key, value) pairs of its table, `dn` the v2 name of a nested sampler written `st` in v1; the
+*model* instantiates them with the converter's mechanism (`fieldValue`: lower-cased key = JSON tag),
+the *monitor* with the documented v1 → v2 correspondence (`specValue`: same name up to case, plus
+`ClearFrequencySec` → `ClearFrequency`), which does not look at the JSON tags at all. -/
+def rgetWith (fv : String → List (String × V1) → String → Option RV) (dn : String → Option String)
+    (i : In) (op : List String) : String :=
   match op with
   | ["rget", ds, what] =>
     let ds := dec ds
@@ -248,7 +253,7 @@ def rgetModel (i : In) (op : List String) : String :=
     else if what == "@type" then "s:" ++ enc (dsType i ds)
     else if what == "@rules" then
       (if dsType i ds == "RulesBasedSampler" then s!"i:{(ruleIdx i ds).length}" else "i:0")
-    else optRV (fieldValue x sfields (dsType i ds) (dsFields i ds) what)
+    else optRV (fv (dsType i ds) (dsFields i ds) what)
   | ["rgetrule", ds, n, what] =>
     let ds := dec ds
     match n.toNat? with
@@ -256,13 +261,13 @@ def rgetModel (i : In) (op : List String) : String :=
     | some n =>
       if !dsPresent i ds || dsType i ds != "RulesBasedSampler" || !(ruleIdx i ds).contains n then "absent"
       else if what == "@conds" then s!"i:{(condIdx i ds n).length}"
-      else optRV (fieldValue x sfields "@rule" (ruleFields i ds n) what)
+      else optRV (fv "@rule" (ruleFields i ds n) what)
   | ["rgetcond", ds, n, m, what] =>
     let ds := dec ds
     match n.toNat?, m.toNat? with
     | some n, some m =>
       if !dsPresent i ds || dsType i ds != "RulesBasedSampler" || !(condIdx i ds n).contains m then "absent"
-      else optRV (fieldValue x sfields "@cond" (condFields i ds n m) what)
+      else optRV (fv "@cond" (condFields i ds n m) what)
     | _, _ => "bad-op"
   | ["rgetdown", ds, n, what] =>
     let ds := dec ds
@@ -273,10 +278,67 @@ def rgetModel (i : In) (op : List String) : String :=
       match downOf i ds n with
       | none => "absent"
       | some (st, kvs) =>
-        match downYaml x st with
+        match dn st with
         | none => "absent"
-        | some y => if what == "@type" then "s:" ++ enc y else optRV (fieldValue x sfields y kvs what)
+        | some y => if what == "@type" then "s:" ++ enc y else optRV (fv y kvs what)
   | _ => "bad-op"
+
+def rgetModel (i : In) (op : List String) : String :=
+  rgetWith (fun st kvs y => fieldValue i.ext sfields st kvs y) (downYaml i.ext) i op
+
+/-! the property's own reading of a v1 rules table (used by the monitor only) -/
+
+/-- the documented v1 spelling(s) of the v2 field `yaml`: the same name in any case; a
+`ClearFrequency` could also be given as integer seconds under `ClearFrequencySec` -/
+def specKeyMatches (x : Ext) (key yaml : String) : Bool :=
+  x.lower key == x.lower yaml || (x.lower key == "clearfrequencysec" && yaml == "ClearFrequency")
+
+/-- the v1 value as the v2 value of a field of the given kind (durations: integer seconds under
+`ClearFrequencySec` / `AdjustmentInterval`, or a duration text) -/
+def specConv (x : Ext) (kind lkey : String) (v : V1) : Option RV :=
+  if kind == "dur" then
+    match v with
+    | .int n => if lkey == "clearfrequencysec" || lkey == "adjustmentinterval" then some (.dur (n * 1000000000)) else none
+    | .str s => (x.dur s).map .dur
+    | _ => none
+  else convKind x kind (.raw v)
+
+/-- (value the v2 field must have, was it given in v1) -/
+def specValue' (x : Ext) (struct : String) (kvs : List (String × V1)) (yaml : String) : Option (RV × Bool) :=
+  match sfields.find? (fun f => f.struct == struct && f.yaml == yaml) with
+  | none => none
+  | some f =>
+    let hit := kvs.findSome? fun kv =>
+      if specKeyMatches x kv.1 yaml then specConv x f.kind (x.lower kv.1) kv.2 else none
+    some (applyRDefault f (hit.getD (zeroOfKind f.kind)), hit.isSome)
+
+def specValue (x : Ext) (struct : String) (kvs : List (String × V1)) (yaml : String) : Option RV :=
+  (specValue' x struct kvs yaml).map (·.1)
+
+def specDown (x : Ext) (st : String) : Option String :=
+  (sfields.find? (fun f => f.struct == "@down" && x.lower f.yaml == x.lower st)).map (·.yaml)
+
+def rgetSpec (i : In) (op : List String) : String :=
+  rgetWith (specValue i.ext) (specDown i.ext) i op
+
+/-- was the field read by `op` given a value in the v1 file; and the name `<Sampler>.<Field>` for signatures -/
+def rgetGiven (i : In) (op : List String) : Bool × String × String :=
+  let x := i.ext
+  let g (st : String) (kvs : List (String × V1)) (y : String) : Bool × String × String :=
+    (((specValue' x st kvs y).map (·.2)).getD false,
+      (if st == "@rule" then "Rule" else if st == "@cond" then "Condition" else st) ++ "." ++ y,
+      optRV (specValue x st [] y))
+  match op with
+  | ["rget", ds, what] => g (dsType i (dec ds)) (dsFields i (dec ds)) what
+  | ["rgetrule", ds, n, what] => g "@rule" (ruleFields i (dec ds) (n.toNat?.getD 0)) what
+  | ["rgetcond", ds, n, m, what] => g "@cond" (condFields i (dec ds) (n.toNat?.getD 0) (m.toNat?.getD 0)) what
+  | ["rgetdown", ds, n, what] =>
+    match downOf i (dec ds) (n.toNat?.getD 0) with
+    | some (st, kvs) => match specDown x st with
+      | some y => g y kvs what
+      | none => (false, "-." ++ what, "-")
+    | none => (false, "-." ++ what, "-")
+  | _ => (false, "-", "-")
 
 /-! ## model step -/
 
@@ -401,7 +463,7 @@ def cfgMon (m : MSt) (op : List String) (exts : List (List String)) (obs : Optio
     if o == "ok" || !(m.conv.startsWith "exit=0") then (m', []) else
     let errs := ",".intercalate (loadErrs exts)
     if rules then
-      if hasValuelessCond m.inp then
+      if hasValuelessCond m.inp && (loadErrs exts).any (·.startsWith "nil-value") then
         (m', [fail "C38:rules:valueless-condition-null" s!"converted rules refused by the v2 loader ({errs}): a condition without a value (exists / not-exists) is written as `Value: null`"])
       else (m', [fail ("C38:rules:output-invalid:" ++ ((loadErrs exts).headD "-")) s!"converted rules refused by the v2 loader ({errs})"])
     else if m.conv == "exit=0 kind=dump" then
@@ -453,9 +515,18 @@ def cfgMon (m : MSt) (op : List String) (exts : List (List String)) (obs : Optio
       else (m, [])
   | "rget" :: _ | "rgetrule" :: _ | "rgetcond" :: _ | "rgetdown" :: _ =>
     if o == "unloaded" then (m, []) else
-    let e := rgetModel m.inp op
+    let e := rgetSpec m.inp op
     if e == o then (m, []) else
-    (m, [fail ("C38:rules:value-changed:" ++ (op.getLast?.getD "-")) s!"{" ".intercalate op}: the v1 rules say {e}, the loaded v2 rules have {o}"])
+    let (given, name, dflt) := rgetGiven m.inp op
+    -- a v1 setting whose v2 field came back at its zero/default = lost; anything else = changed
+    let lost := given && o == dflt
+    let what := op.getLast?.getD "-"
+    if what.startsWith "@" then
+      (m, [fail ("C38:rules:structure-changed:" ++ what) s!"{" ".intercalate op}: the v1 rules say {e}, the loaded v2 rules have {o}"])
+    else if lost then
+      (m, [fail ("C38:rules:value-lost:" ++ name) s!"{" ".intercalate op}: the v1 rules say {e}, the loaded v2 rules have only the default {o}"])
+    else
+      (m, [fail ("C38:rules:value-changed:" ++ name) s!"{" ".intercalate op}: the v1 rules say {e}, the loaded v2 rules have {o}"])
   | _ => (m, [])
 
 def comp (fx : Fixes) : Component St MSt where
